@@ -498,6 +498,13 @@ def check_zoned_history(i):
                       "America/St_Johns", "Asia/Tehran", "Europe/Dublin", "Antarctica/Troll", "Asia/Kathmandu"])
     zone = DateTimeZoneProviders.tzdb[zid]
     cal = CalendarSystem.for_id(rng.choice(["ISO", "ISO", "Julian", "Coptic", "Persian Simple", "Hebrew Civil"]))
+    # several ZonedClocks share the wrapped clock: other calendars in the same zone, the same calendar elsewhere
+    # (state shared between ZonedClock instances must not leak from one view into another)
+    others = []
+    for _ in range(rng.randint(1, 3)):
+        oz = zone if rng.random() < 0.6 else DateTimeZoneProviders.tzdb[rng.choice(["Europe/Paris", "Asia/Tokyo", "America/New_York"])]
+        oc = CalendarSystem.for_id(rng.choice(["ISO", "Julian", "Coptic", "Persian Simple", "Hebrew Civil", "Gregorian"]))
+        others.append((oz, oc))
     # transitions of the zone near a seeded instant
     t0 = rng.randint(-20 * 366 * NPD, 60 * 366 * NPD)
     trans = []
@@ -513,12 +520,16 @@ def check_zoned_history(i):
     now = rng.choice(trans) + rng.choice([-1, 0, 1, -3600 * 10**9, 3600 * 10**9, rng.randint(-NPD, NPD)])
     auto = rng.choice([0, 0, 1, -1, 60 * 10**9, -20 * 60 * 10**9, rng.randint(-2 * NPD, 2 * NPD)])
     base = FakeClock(inst(*split(now)), dur(*split(auto)))
-    zc = ZonedClock(base, zone, cal)
-    getters = [("get_current_instant", lambda z: z), ("get_current_zoned_date_time", lambda z: z.in_zone(zone, cal)),
-               ("get_current_local_date_time", lambda z: z.in_zone(zone, cal).local_date_time),
-               ("get_current_offset_date_time", lambda z: z.in_zone(zone, cal).to_offset_date_time()),
-               ("get_current_date", lambda z: z.in_zone(zone, cal).date),
-               ("get_curent_time_of_day", lambda z: z.in_zone(zone, cal).time_of_day)]
+    views = [(ZonedClock(base, z_, c_), z_, c_) for z_, c_ in [(zone, cal)] + others]
+    getter_names = ["get_current_instant", "get_current_zoned_date_time", "get_current_local_date_time",
+                    "get_current_offset_date_time", "get_current_date", "get_current_date", "get_curent_time_of_day"]
+
+    def view_of(name, z_, c_):
+        return {"get_current_instant": lambda i_: i_, "get_current_zoned_date_time": lambda i_: i_.in_zone(z_, c_),
+                "get_current_local_date_time": lambda i_: i_.in_zone(z_, c_).local_date_time,
+                "get_current_offset_date_time": lambda i_: i_.in_zone(z_, c_).to_offset_date_time(),
+                "get_current_date": lambda i_: i_.in_zone(z_, c_).date,
+                "get_curent_time_of_day": lambda i_: i_.in_zone(z_, c_).time_of_day}[name]
     hist = []
     for step in range(rng.randint(8, 24)):
         k = rng.random()
@@ -536,15 +547,17 @@ def check_zoned_history(i):
             auto = rng.choice([0, 1, -1, 60 * 10**9, -20 * 60 * 10**9, rng.randint(-NPD, NPD)])
             base.auto_advance = dur(*split(auto))
             hist.append(f"auto_advance={auto}")
-        name, view = rng.choice(getters)
+        name = rng.choice(getter_names)
+        zc, vz, vc = rng.choice(views) if rng.random() < 0.7 else views[0]
+        view = view_of(name, vz, vc)
         expected_instant = inst(*split(now))
         kind_, got = call_with_watchdog("zoned." + name, getattr(zc, name))
-        hist.append(name)
+        hist.append(f"{name}@{vz.id}/{vc.id}")
         if kind_ != "ok":
             return {"key": "zonedclock-history", "what": f"ZonedClock({zid}, {cal.id}) after {hist}: {name}() raised {type(got).__name__}: {got}"}
         exp = view(expected_instant)
-        if got != exp:
-            return {"key": "zonedclock-history", "what": f"ZonedClock({zid}, {cal.id}) after {hist[-12:]}: {name}() = {got!r}; the model clock reads "
+        if got != exp or getattr(got, "calendar", vc) != vc:
+            return {"key": "zonedclock-history", "what": f"ZonedClock({vz.id}, {vc.id}) after {hist[-12:]}: {name}() = {got!r}; the model clock reads "
                     f"{expected_instant!r}, which renders as {exp!r}"}
         now += auto
         fin = base._FakeClock__now
